@@ -245,6 +245,21 @@ def signatures_of(ctext):
     return sigs
 
 
+def locals_of(ctext):
+    """function -> [(ctype, local name), ...] in declaration order (block-scoped declarations of the extracted C body)"""
+    out = {}
+    for m in re.finditer(r'^/\*@FUNC (\w+)\*/\n[^\n]*\n(.*?)^\}\n', ctext, re.M | re.S):
+        decls = []
+        for l in m.group(2).split('\n'):
+            if l.startswith('__CPROVER') or re.match(r'^\s*(/\*|(return|goto|if|while|for|do|else)\b)', l):
+                continue
+            dm = re.match(r'^\s+((?:const\s+)?[A-Za-z_]\w*(?:\s+[A-Za-z_]\w*)*?\s*\**)\s*\b([A-Za-z_]\w*)\s*(?:=[^=]|;)', l)
+            if dm and dm.group(1).strip() not in ('return', 'goto', 'else'):
+                decls.append((re.sub(r'\s+', ' ', dm.group(1)).strip(), dm.group(2)))
+        out[m.group(1)] = decls
+    return out
+
+
 def parameter_renames(ctext, comp):
     """The contracts name parameters as they were spelled when the contracts were written (contracts/signatures.json).
     A function whose parameters were merely renamed (same number, same C types, in order) keeps its contract: the old
@@ -265,6 +280,20 @@ def parameter_renames(ctext, comp):
         mp = {o: n for (_, o), (_, n) in zip(old, new) if o != n}
         if mp:
             ren[f] = mp
+    # locals: a pure rename keeps number, types and order of the declarations; old and new names must be disjoint
+    # (a permutation of existing names is not a rename and is left alone)
+    base_l = json.load(open(base_path)).get(comp.name + '#locals', {})
+    cur_l = locals_of(ctext)
+    for f, old in base_l.items():
+        new = cur_l.get(f)
+        if new is None or len(new) != len(old) or [t for t, _ in old] != [t for t, _ in new]:
+            continue
+        mp = {o: n for (_, o), (_, n) in zip(old, new) if o != n}
+        if not mp:
+            continue
+        if set(mp) & set(n for _, n in new) or set(mp.values()) & set(o for _, o in old):
+            continue
+        ren.setdefault(f, {}).update(mp)
     return ren
 
 
